@@ -60,7 +60,15 @@ def run(tier):
                      'itself is the real library: no TLA+ model of the handshake, hence exploration',
                      'timing: a reply is awaited for at most 1 s of real time, an unsolicited one for 0.4 s'],
         trusted=['TLC 1.8', 'CommunityModules Json/IOUtils', 'harness/drivers/c08.py', 'gevent.ssl / OpenSSL'],
-        wd=wd)
+        wd=wd, post=_no_driver_errors)
+
+
+def _no_driver_errors(oc, traces, summaries):
+    """a case the driver could not carry through is no evidence of anything: loud, unless violations explain it"""
+    from ..common import MachineryError
+    bad = [tr['cls'] for tr in traces if any(e.get('driver_error') for e in tr['ev'])]
+    if bad and not oc.violations:
+        raise MachineryError('%d cases ended with a driver error (first: %s)' % (len(bad), bad[0]))
 
 
 def replay(path):
